@@ -226,8 +226,17 @@ def check_labels(prog, rep, m):
     for f, c in bin_calls(prog, m):
         if f.name == 'reclassify':
             # user-supplied new values; lengths must agree
-            ok = any(isinstance(i, ast.If) and 'len(bins) != len(new_values)' in norm(i.test) and
-                     any(isinstance(x, ast.Raise) for x in i.body) for i in f.own_nodes())
+            def lens_differ(t):
+                # len(<bins>) != len(<new values>) on the two public list parameters, either way round (or `not ==`)
+                for x in ast.walk(t):
+                    if isinstance(x, ast.Compare) and len(x.ops) == 1 and isinstance(x.ops[0], (ast.NotEq, ast.Eq)):
+                        sides = {norm(x.left).replace(' ', ''), norm(x.comparators[0]).replace(' ', '')}
+                        if sides == {'len(%s)' % f.params[1], 'len(%s)' % f.params[2]}:
+                            neg = any(isinstance(y, ast.UnaryOp) and isinstance(y.op, ast.Not) and any(z is x for z in ast.walk(y)) for y in ast.walk(t))
+                            return isinstance(x.ops[0], ast.NotEq) != neg
+                return False
+            ok = len(f.params) >= 3 and any(isinstance(i, ast.If) and lens_differ(i.test) and
+                                            any(isinstance(x, ast.Raise) for x in i.body) for i in f.own_nodes())
             rep.add('K2', f, 'reclassify', 'len(bins) == len(new_values) enforced', f.node.lineno, ok,
                     'reclassify must reject bin / new-value lists of different lengths')
             n += 1
